@@ -15,8 +15,8 @@ def body(run):
     q = run.quick()
     exe = [None]
     res = run.parallel(
-        lambda: run.tlc("ScRecv", "ScRecv_MC", "ScRecv_c12_mc.cfg", label="contract: reference sender, 6 plans x 5 numberings, all interleavings"),
-        lambda: run.tlc("ScRecv", "ScRecv_MC", "ScRecv_c12_dev.cfg", expect="violation", count=False,
+        lambda: run.tlc("ScRecv", "ScRecv_MC", "ScRecv_c12_mc.cfg", workers=2, label="contract: reference sender, 6 plans x 5 numberings, all interleavings"),
+        lambda: run.tlc("ScRecv", "ScRecv_MC", "ScRecv_c12_dev.cfg", workers=1, expect="violation", count=False,
                         label="deviation demo: mergeChunks' duplicate filter violates InvReassembly"),
         lambda: run.tlc("ScRecv", "ScRecv_MC", "ScRecv_c12_gen_q.cfg" if q else "ScRecv_c12_gen_t.cfg", mode="gen", count=False,
                         label="streams with contract and as-is outcome of every chunk"),
@@ -37,7 +37,8 @@ def body(run):
                 c.update({"prop": "C12", "policy": pol, "mode": mode, "side": side, "sender": "ref", "salt": salt})
                 cases.append(c)
     run.log("TLC: %d states; %d streams; %d cases to replay" % (run.cov["states"], len(rows), len(cases)))
-    results = run.go_run(exe[0], ["-par", "6"], cases=cases, timeout=run.pick(600, 2400))
+    tpath = run.tmp("traces.ndjson")
+    results = run.go_run(exe[0], ["-par", "6", "-trace", tpath], cases=cases, timeout=run.pick(600, 2400))
     if len(results) != len(cases):
         raise vf.Inconclusive("harness returned %d results for %d cases" % (len(results), len(cases)))
     for r in results:   # every stream is non-trivial: class = side x mode x plan x numbering
@@ -48,6 +49,18 @@ def body(run):
         r["nontrivial"] = True
     sc.log_inconclusive(run, results)
     run.absorb(results)
+    # code -> spec: TLC validates the recorded inputs + receiver events against the receiver of ScRecv
+    ok, n = sc.validate_traces(run, tpath, "trace validation of the replayed behaviours")
+    if ok:
+        run.cov["traces_validated_against_impl"] += n
+        bad, _ = sc.validate_traces(run, tpath, "binding self-test: one recorded verdict flipped", corrupt=True)
+        if bad is not False:
+            raise vf.Inconclusive("trace validation accepted a corrupted trace")
+        run.cov["corrupted_trace_rejected"] = True
+    elif ok is False and not run.violations:
+        run.violation("%s:recorded-trace-not-a-behaviour-of-the-specification" % run.prop.lower(),
+                      "TLC rejects the recorded receiver events (see out/log/%s)" % run.prop)
+
     run.cov["streams_generated"] = len(rows)
     run.cov["rule"] = ("one case per (TLC stream, policy, mode, receiving side); class = receiver x policy x mode x plan "
                        "(chunks per message, aborts) x numbering (plain / four shapes of the wrap)")
